@@ -39,6 +39,11 @@ type SpecFunc struct {
 	Uninterp bool
 }
 
+type GhostVar struct {
+	Name string
+	Type string
+}
+
 type GhostField struct {
 	Owner string // type name as written
 	Name  string
@@ -85,16 +90,35 @@ type IterSpec struct {
 	Text string
 }
 
+type Lemma struct {
+	Name   string
+	Mode   Mode
+	Pkg    string
+	Clause *Clause
+}
+
+// RecvInv: "recv field (T).ch ensures e": every value received from the channel stored in that field satisfies e
+// (the variable "value" denotes it); every send on that channel in code under contract must establish it.
+type RecvInv struct {
+	Owner  string
+	Field  string
+	Pkg    string
+	Clause *Clause
+}
+
 type Contracts struct {
+	Recvs  []*RecvInv
+	Lemmas []*Lemma
 	Funcs  map[string]*FuncContract
 	Specs  map[string]*SpecFunc
 	Ghosts []GhostField
+	GhostVars map[string]GhostVar
 	Files  []string
 	Axioms []*Clause
 }
 
 func NewContracts() *Contracts {
-	return &Contracts{Funcs: map[string]*FuncContract{}, Specs: map[string]*SpecFunc{}}
+	return &Contracts{Funcs: map[string]*FuncContract{}, Specs: map[string]*SpecFunc{}, GhostVars: map[string]GhostVar{}}
 }
 
 var labelRe = regexp.MustCompile(`^\[([A-Z0-9 ,]+)\]\s*`)
@@ -239,9 +263,14 @@ func (cs *Contracts) LoadContractFile(path, pkgPath string) error {
 				return fail(l.line, "func: missing name")
 			}
 			isField := false
+			isType := false
 			if fields[0] == "field" && len(fields) > 1 {
 				// contract on a function-typed struct field: applies to calls through that field
 				isField = true
+				fields = fields[1:]
+			} else if fields[0] == "type" && len(fields) > 1 {
+				// contract on a named function type: applies to every dynamic call of a value of that type
+				isType = true
 				fields = fields[1:]
 			}
 			cur = &FuncContract{Written: fields[0], Key: canonKey(fields[0], pkgPath), Pkg: pkgPath,
@@ -269,6 +298,11 @@ func (cs *Contracts) LoadContractFile(path, pkgPath string) error {
 			if isField {
 				cur.Key = "field:" + cur.Key
 				cur.Trusted = true // no body: the function value is universally quantified within this contract
+				cur.Field = true
+			}
+			if isType {
+				cur.Key = "type:" + cur.Key
+				cur.Trusted = true
 				cur.Field = true
 			}
 			if prev, dup := cs.Funcs[cur.Key]; dup {
@@ -419,6 +453,11 @@ func (cs *Contracts) LoadContractFile(path, pkgPath string) error {
 		case "ghost":
 			// ghost field (T).name type
 			fs := strings.Fields(rest)
+			if len(fs) == 3 && fs[0] == "var" {
+				// ghost var name type : a global ghost scalar, written $name
+				cs.GhostVars[fs[1]] = GhostVar{fs[1], fs[2]}
+				continue
+			}
 			if len(fs) == 5 && fs[3] == "->" {
 				fs = []string{fs[0], fs[1], fs[2] + " -> " + fs[4]}
 			}
@@ -430,6 +469,41 @@ func (cs *Contracts) LoadContractFile(path, pkgPath string) error {
 				return fail(l.line, "ghost field: bad owner")
 			}
 			cs.Ghosts = append(cs.Ghosts, GhostField{Owner: fs[1][1:i], Name: fs[1][i+2:], Type: fs[2]})
+		case "recv":
+			// recv field (T).ch ensures expr
+			fs := strings.SplitN(rest, " ", 4)
+			if len(fs) < 4 || fs[0] != "field" || fs[2] != "ensures" {
+				return fail(l.line, "recv: want 'recv field (T).ch ensures expr'")
+			}
+			i := strings.Index(fs[1], ").")
+			if !strings.HasPrefix(fs[1], "(") || i < 0 {
+				return fail(l.line, "recv: bad field")
+			}
+			c, err := mk("recv", fs[3])
+			if err != nil {
+				return err
+			}
+			cs.Recvs = append(cs.Recvs, &RecvInv{Owner: fs[1][1:i], Field: fs[1][i+2:], Pkg: pkgPath, Clause: c})
+		case "lemma":
+			// lemma <name> [mode bv] : [labels] expr   — a closed formula proved on its own (no code involved)
+			i := strings.Index(rest, ":")
+			if i < 0 {
+				return fail(l.line, "lemma: want 'lemma name [mode bv] : expr'")
+			}
+			head := strings.Fields(rest[:i])
+			if len(head) == 0 {
+				return fail(l.line, "lemma: missing name")
+			}
+			lm := &Lemma{Name: head[0], Pkg: pkgPath}
+			if len(head) == 3 && head[1] == "mode" && head[2] == "bv" {
+				lm.Mode = ModeBV
+			}
+			c, err := mk("lemma", strings.TrimSpace(rest[i+1:]))
+			if err != nil {
+				return err
+			}
+			lm.Clause = c
+			cs.Lemmas = append(cs.Lemmas, lm)
 		case "axiom":
 			c, err := mk("axiom", rest)
 			if err != nil {
